@@ -360,6 +360,28 @@ func GenSchedule(rng *Rng, nTasks, estSteps int) (sched []int, strategy string) 
 	return
 }
 
+// GenCoarseSchedule: a random order of tasks, each run to completion, with 0..4 preemption points.
+func GenCoarseSchedule(rng *Rng, nTasks, estSteps int) []int {
+	d := rng.Intn(5)
+	points := map[int]bool{}
+	for i := 0; i < d; i++ {
+		points[rng.Intn(estSteps)] = true
+	}
+	cur := rng.Intn(nTasks)
+	var sched []int
+	for i := 0; i < estSteps; i++ {
+		if points[i] && nTasks > 1 {
+			nxt := rng.Intn(nTasks - 1)
+			if nxt >= cur {
+				nxt++
+			}
+			cur = nxt
+		}
+		sched = append(sched, cur)
+	}
+	return sched
+}
+
 // GenSites draws the subset of yield sites enabled for a run (swarm testing).
 func GenSites(rng *Rng) []string {
 	var out []string
